@@ -38,6 +38,7 @@ import json
 import os
 import shutil
 import tempfile
+import time
 from builtins import enumerate as _enumerate  # the module contract shadows `enumerate`
 import re
 import subprocess
@@ -99,25 +100,23 @@ def _instances(targets, tier, first_only=False):
     return [(n, vi, top) for (n, top) in targets for vi in (_variant_ids(n, tier)[:1] if first_only else _variant_ids(n, tier))]
 
 
+# quick tier: designs that are compiled with non-default OPTIONS (bounds the number of (design, options) goldens)
+OPT_DESIGNS = ["name_collisions", "class_helper_objects", "prefix_named", "sync_flag_delay", "inline_entity",
+               "comb_logic"]
+QUICK_SHARDS = {"hist": 6, "ixv": 4, "vxv": 3, "opt": 1, "hashseed": 2}
+QUICK_STRIDE = {"ixv": 5, "vxv": 9}  # quick: every n-th ordered pair per victim (rotating); thorough: all pairs
+
+
 def plan(tier):
     quick = tier == "quick"
     shards = []
-    n_hyp, per, maxlen = (8, 20, 10) if quick else (48, 60, 24)
+    n_hyp, per, maxlen = (QUICK_SHARDS["hist"], 12, 8) if quick else (48, 60, 24)
     for i in range(n_hyp):
-        shards.append({"kind": "hyp", "name": f"hist{i}", "examples": per, "maxlen": maxlen, "pool": i})
-    n_ixv = 8 if quick else 24
-    for i in range(n_ixv):
-        shards.append({"kind": "enum", "name": f"ixv{i}", "space": "ixv", "part": i, "parts": n_ixv, "tier": tier})
-    n_vxv = 8 if quick else 24
-    for i in range(n_vxv):
-        shards.append({"kind": "enum", "name": f"vxv{i}", "space": "vxv", "part": i, "parts": n_vxv, "tier": tier})
-    n_hs = 4 if quick else 12
-    for i in range(n_hs):
-        shards.append({"kind": "enum", "name": f"hashseed{i}", "space": "hashseed", "part": i, "parts": n_hs,
-                       "tier": tier})
-    n_opt = 4 if quick else 8
-    for i in range(n_opt):
-        shards.append({"kind": "enum", "name": f"opt{i}", "space": "opt", "part": i, "parts": n_opt, "tier": tier})
+        shards.append({"kind": "hyp", "name": f"hist{i}", "examples": per, "maxlen": maxlen, "pool": i, "tier": tier})
+    for space, n_thorough in (("ixv", 24), ("vxv", 24), ("hashseed", 12), ("opt", 8)):
+        n = QUICK_SHARDS[space] if quick else n_thorough
+        for i in range(n):
+            shards.append({"kind": "enum", "name": f"{space}{i}", "space": space, "part": i, "parts": n, "tier": tier})
     only = os.environ.get("C11_ONLY")  # debugging aid: regular expression selecting shards by name
     if only:
         shards = [s for s in shards if re.search(only, s["name"])]
@@ -129,15 +128,96 @@ def _dspec(name, vi):
 
 
 def enumerate(shard):  # noqa: A001 - name fixed by the module contract
-    # quick tier: every third ordered pair of the IxV / VxV spaces (rotating with the shard), all of them in thorough
-    stride = 3 if (shard["tier"] == "quick" and shard["space"] in ("ixv", "vxv")) else 1
-    for k, case in _enumerate(_enumerate_space(shard)):
-        if stride > 1 and k % stride != shard["part"] % stride:
-            continue
-        # tag = the pair space is enumerated completely for the victim (quick VxV takes every second predecessor)
-        if shard["space"] == "ixv" or (shard["space"] == "vxv" and shard["tier"] != "quick"):
+    if shard["tier"] == "quick":
+        yield from _enumerate_quick(shard)
+        return
+    for case in _enumerate_space(shard):
+        # tag = the pair space is enumerated completely for the victim
+        if shard["space"] in ("ixv", "vxv"):
             case["space"] = shard["space"]
         yield case
+
+
+def _all_names():
+    """Object names of the whole valid pool (first variants): the reserved-name set of the quick tier."""
+    out = []
+    for n in D.names("V"):
+        for x in D.object_names(n, D.variants(n)[0]):
+            if x not in out:
+                out.append(x)
+    return out
+
+
+def _quick_optsets():
+    names = _all_names()
+    return [{"reserved": names}, {"reserved": names[::2], "api": "dir"}, {"api": "library"}]
+
+
+def _quick_victims():
+    """[(name, variant, top)]: first variant of every valid top; every 4th victim of VxV uses its last variant."""
+    return [(n, 0, t) for (n, t) in V_TARGETS]
+
+
+def _quick_vxv_victims():
+    out = []
+    for k, (n, t) in _enumerate(V_TARGETS):
+        out.append((n, len(D.variants(n)) - 1 if k % 7 == 0 else 0, t))
+    return out
+
+
+def _pair(first, victim):
+    (n, v, t), (vn, vv, vt) = first, victim
+    if n == vn and v == vv:
+        return None if t == vt else {"designs": [_dspec(n, v)], "ops": [["c", 0, t], ["c", 0, vt]]}
+    return {"designs": [_dspec(n, v), _dspec(vn, vv)], "ops": [["c", 0, t], ["c", 1, vt]]}
+
+
+def _enumerate_quick(shard):
+    """Small tier: few variants (few distinct goldens), every kind of rejected stage, every op kind."""
+    part, parts, space = shard["part"], shard["parts"], shard["space"]
+    if space == "ixv":
+        firsts = [(n, 0, t) for (n, t) in I_TARGETS]
+        for k, victim in _enumerate(_quick_victims()):
+            if k % parts != part:
+                continue
+            for j, first in _enumerate(firsts):
+                if (j + k) % QUICK_STRIDE["ixv"] == 0 and not (first[0] == victim[0] and first[1] != victim[1]):
+                    case = _pair(first, victim)
+                    if case:
+                        yield case
+    elif space == "vxv":
+        firsts = _quick_victims()
+        for k, victim in _enumerate(_quick_vxv_victims()):
+            if k % parts != part:
+                continue
+            vn, vv, vt = victim
+            if k % 2 == 0:
+                yield {"designs": [_dspec(vn, vv)], "ops": [["c", 0, vt], ["a", 0, vt]]}
+                yield {"designs": [_dspec(vn, vv)], "ops": [["c", 0, vt], ["f", 0, vt]]}
+            else:
+                yield {"designs": [_dspec(vn, vv)], "ops": [["a", 0, vt]]}
+            for j, first in _enumerate(firsts):
+                if (j + k) % QUICK_STRIDE["vxv"] == 1:
+                    case = _pair(first, victim)
+                    if case:
+                        yield case
+    elif space == "opt":
+        A, B, C = _quick_optsets()
+        victims = [(n, 0, "Top") for n in OPT_DESIGNS]
+        for (vn, vv, vt) in victims[part::parts]:
+            other = "comb_logic" if vn != "comb_logic" else "name_collisions"
+            vd, od = _dspec(vn, vv), _dspec(other, 0)
+            yield {"designs": [vd], "ops": [["c", 0, vt, A], ["c", 0, vt]]}
+            yield {"designs": [od, vd], "ops": [["c", 0, "Top", A], ["f", 1, vt]]}
+            yield {"designs": [vd], "ops": [["c", 0, vt], ["c", 0, vt, A], ["c", 0, vt, C]]}
+            yield {"designs": [vd], "ops": [["c", 0, vt, B], ["a", 0, vt], ["c", 0, vt, B]]}
+    elif space == "hashseed":
+        for k, (n, v, t) in _enumerate(_quick_victims()):
+            if k % parts == part:
+                # one extra fresh interpreter per design; the seed values rotate over the designs
+                yield {"designs": [_dspec(n, v)], "ops": [["c", 0, t]], "hashseeds": [0, SEEDS_QUICK[1 + k % 3]]}
+    else:
+        raise HarnessError(f"unknown space {space}")
 
 
 def _enumerate_space(shard):
@@ -206,15 +286,20 @@ def _pool(shard):
     vnames = D.names("V")
     inames = [n for n in D.names("I") if n not in vnames]
     # every shard: a rotating window of valid / invalid modules, one variant each
+    quick = shard.get("tier", "quick") == "quick"  # quick: first variant only (goldens shared with the enum shards)
     nv, ni = 12, 9
     for j in range(nv):
         n = vnames[(k * 5 + j * 3) % len(vnames)]
         var = D.variants(n)
-        vs.append({"d": n, "p": var[(k + j) % len(var)]})
+        vs.append({"d": n, "p": var[0 if quick else (k + j) % len(var)]})
+    if quick:
+        for j in range(2):  # two of the designs that are compiled with options
+            n = OPT_DESIGNS[(2 * k + j) % len(OPT_DESIGNS)]
+            vs.append({"d": n, "p": D.variants(n)[0]})
     for j in range(ni):
         n = inames[(k * 4 + j * 3) % len(inames)]
         var = D.variants(n)
-        is_.append({"d": n, "p": var[(k + j) % len(var)]})
+        is_.append({"d": n, "p": var[0 if quick else (k + j) % len(var)]})
 
     def uniq(lst):
         seen, out = set(), []
@@ -244,7 +329,8 @@ def _option_sets(vs):
 def strategy(shard):
     vs, is_ = _pool(shard)
     maxlen = int(shard.get("maxlen", 10))
-    optsets = _option_sets(vs)
+    quick = shard.get("tier", "quick") == "quick"
+    optsets = _quick_optsets() if quick else _option_sets(vs)
 
     @st.composite
     def case(draw):
@@ -259,8 +345,12 @@ def strategy(shard):
         invalid_t = [t for t in targets if not t[2]]
         none = st.just(None)
         op_v = st.tuples(st.sampled_from(["c", "c", "f", "a"]), st.sampled_from(valid_t), none)
-        op_o = st.tuples(st.sampled_from(["c", "c", "f", "a"]), st.sampled_from(valid_t), st.sampled_from(optsets))
-        ops_s = [op_v, op_v, op_v, op_o]
+        # quick: only OPT_DESIGNS are compiled with options (their (design, options) goldens are shared by all shards)
+        opt_t = [t for t in valid_t if designs[t[0]]["d"] in OPT_DESIGNS] if quick else valid_t
+        ops_s = [op_v, op_v, op_v]
+        if opt_t:
+            ops_s.append(st.tuples(st.sampled_from(["c", "c", "f", "a"]), st.sampled_from(opt_t),
+                                   st.sampled_from(optsets)))
         if invalid_t:
             op_i = st.tuples(st.sampled_from(["c", "c", "c", "f", "a"]), st.sampled_from(invalid_t), none)
             ops_s += [op_i, op_i]
@@ -302,8 +392,9 @@ def _golden_path(key):
 
 def _goldens(keys, threads=4):
     """keys: iterable of (source, top, seed, optkey); fills the per-process cache.  A golden is the result of a
-    fresh interpreter that performs only this compilation."""
-    todo = []
+    fresh interpreter that performs only this compilation.  With a run-scoped directory every distinct golden is
+    computed once per run: the worker that creates `<key>.lock` computes it, the others wait for the file."""
+    todo, waiting = [], []
     for k in dict.fromkeys(keys):
         if k in _GOLDEN:
             continue
@@ -311,23 +402,46 @@ def _goldens(keys, threads=4):
         if p and os.path.exists(p):
             with open(p) as f:
                 _GOLDEN[k] = json.load(f)
+        elif p:
+            try:
+                os.close(os.open(p + ".lock", os.O_CREAT | os.O_EXCL | os.O_WRONLY))
+                todo.append(k)
+            except FileExistsError:
+                waiting.append(k)
         else:
             todo.append(k)
-    if not todo:
-        return
+
     def one(k):
         op = ["c", 0, k[1]] + ([json.loads(k[3])] if len(k) > 3 and k[3] else [])
         return _run_child([k[0]], [op], k[2])[0]
 
-    with ThreadPoolExecutor(min(threads, len(todo))) as ex:
-        for k, res in zip(todo, ex.map(one, todo)):
-            _GOLDEN[k] = res
-            p = _golden_path(k)
-            if p:
-                tmp = f"{p}.{os.getpid()}.tmp"
-                with open(tmp, "w") as f:
-                    json.dump(res, f)
-                os.replace(tmp, p)
+    def compute(ks):
+        with ThreadPoolExecutor(min(threads, len(ks))) as ex:
+            for k, res in zip(ks, ex.map(one, ks)):
+                _GOLDEN[k] = res
+                p = _golden_path(k)
+                if p:
+                    tmp = f"{p}.{os.getpid()}.tmp"
+                    with open(tmp, "w") as f:
+                        json.dump(res, f)
+                    os.replace(tmp, p)
+
+    if todo:
+        compute(todo)
+    late = []
+    for k in waiting:  # computed by another worker of this run
+        p = _golden_path(k)
+        for _ in range(int(CHILD_TIMEOUT / 0.05)):
+            if os.path.exists(p):
+                break
+            time.sleep(0.05)
+        if os.path.exists(p):
+            with open(p) as f:
+                _GOLDEN[k] = json.load(f)
+        else:
+            late.append(k)  # the owner died: compute it here
+    if late:
+        compute(late)
 
 
 def _optkey(op):
@@ -618,8 +732,8 @@ def view(case):
 
 def selfcheck():
     """Runs in the parent before the workers start.  Trusted base: the pools render and the classifiers
-    are value free.  Also creates the run-scoped golden directory and fills it with the seed-0 goldens
-    of the valid pool (one fresh interpreter per design instance, 16 at a time)."""
+    are value free.  Also creates the run-scoped golden directory (removed at exit) and fills it with exactly
+    the goldens that the enumerated cases of this run use (one fresh interpreter each, 16 at a time)."""
     for n in D.names():
         for p in D.variants(n):
             D.render(n, p)
@@ -633,6 +747,25 @@ def selfcheck():
     pid = os.getpid()
     atexit.register(lambda: os.getpid() == pid and shutil.rmtree(d, ignore_errors=True))
     tier = "thorough" if ("thorough" in sys.argv or os.environ.get("VERIF_TIER") == "thorough") else "quick"
-    _goldens([(D.render(n, D.variants(n)[vi]), top, 0, "") for (n, vi, top) in _instances(V_TARGETS, tier)], threads=16)
-    bad = [k[1] for k, r in _GOLDEN.items() if not r["ok"]]
-    # a valid pool design that a fresh interpreter rejects is not a C11 violation; it is only labelled
+    _goldens(_needed_goldens(tier), threads=16)
+    # (a valid pool design that a fresh interpreter rejects is not a C11 violation; it is only labelled)
+
+
+def _needed_goldens(tier):
+    """Exactly the goldens used by the enumerated cases of this run (the Hypothesis shards add theirs lazily;
+    quick: those are the same (design, options) pairs)."""
+    keys, rendered = {}, {}
+    for shard in plan(tier):
+        if shard["kind"] != "enum":
+            continue
+        for case in enumerate(shard):
+            for o in case["ops"]:
+                d = case["designs"][o[1]]
+                if D.stage(d["d"], o[2]) != "valid":
+                    continue
+                ck = canon(d)
+                if ck not in rendered:
+                    rendered[ck] = D.render(d["d"], d["p"])
+                for seed in case.get("hashseeds", [0]):
+                    keys[(rendered[ck], o[2], seed, _optkey(o))] = True
+    return list(keys)
